@@ -26,6 +26,8 @@ type Node struct {
 	config map[string]interface{} // written to dir/config before first start
 	opts   Options                // template
 	insts  []*Inst
+	// park the node's log streams between end-of-file and their wait for more (hook liveaof.eof)
+	parkStreamEOF bool
 }
 
 type grantEvent struct {
@@ -128,6 +130,11 @@ func installServerHooks() {
 			if l.inst.dead || l.inst.parkAtFlush != l.inst.flushes {
 				return
 			}
+		}
+		if name == "liveaof.eof" && (l.inst.dead || !l.inst.node.parkStreamEOF) {
+			// between a log stream's end-of-file and its wait for more: a decision point only in
+			// runs that ask for it (a knob; recorded runs without it keep their schedules)
+			return
 		}
 		l.point(name)
 	}
